@@ -29,6 +29,9 @@ META["claim"] += " " + "Also: losses that cut a frame or a fragmented message in
 LOSSES = ["refused", "reject", "eof", "reset", "pingtimeout"]
 TLS_LOSSES = ["ssl-eof"]
 CUT_LOSSES = ["eof-mid-frame", "eof-mid-message", "reset-mid-message"]
+# further ways in which a connection attempt fails (any of them is "a failed connection attempt": the next one follows)
+FAIL_KINDS = ["unreachable", "conn-timeout", "gaierror", "oserror-eio", "status-500", "garbage-response", "bad-accept", "tls-cert", "tls-error"]
+TLS_FAILS = ["tls-cert", "tls-error"]
 HORIZON = 600.0
 
 
@@ -44,6 +47,28 @@ def build_plan(seq, final, rng):
             plan.append(dict(outcome="refused"))
         elif k == "reject":
             plan.append(dict(outcome="reject", status=403))
+        elif k == "unreachable":
+            plan.append(dict(outcome="unreachable"))
+        elif k == "conn-timeout":
+            plan.append(dict(outcome="timeout"))
+        elif k == "gaierror":
+            import socket as _so
+            plan.append(dict(outcome="error", exc=lambda: _so.gaierror(-2, "Name or service not known")))
+        elif k == "oserror-eio":
+            plan.append(dict(outcome="error", exc=lambda: OSError(5, "Input/output error")))
+        elif k == "status-500":
+            plan.append(dict(outcome="reject", status=500))
+        elif k == "garbage-response":
+            plan.append(dict(outcome="ok", response=lambda req: b"SSH-2.0-OpenSSH_9.6\r\n\r\n", script=[(0.1, "eof")]))
+        elif k == "bad-accept":
+            plan.append(dict(outcome="ok", script=[(0.1, "eof")],
+                             response=lambda req: b"HTTP/1.1 101 Switching Protocols\r\nUpgrade: websocket\r\nConnection: Upgrade\r\nSec-WebSocket-Accept: bm90IHRoZSByaWdodCBvbmU=\r\n\r\n"))
+        elif k == "tls-cert":
+            import ssl as _ssl
+            plan.append(dict(outcome="ok", tls_error=lambda: _ssl.SSLCertVerificationError(1, "[SSL: CERTIFICATE_VERIFY_FAILED] certificate verify failed: self-signed certificate (_ssl.c:1000)")))
+        elif k == "tls-error":
+            import ssl as _ssl
+            plan.append(dict(outcome="ok", tls_error=lambda: _ssl.SSLError(1, "[SSL: WRONG_VERSION_NUMBER] wrong version number (_ssl.c:1000)")))
         else:
             nm = (i + len(seq)) % 3
             script = []
@@ -111,6 +136,25 @@ def run(res, tier, seed, shard, nshards):
         for final in ("server-close", "own-close"):
             for disp in (None, "rel"):
                 jobs.append(("seq", seq, final, 1, disp))
+    # every other way a connection attempt can fail (unreachable, timed out, unresolvable, I/O error, 5xx, garbage, wrong accept
+    # value, TLS certificate / protocol failure), alone and next to losses of established connections
+    fi = 0
+    for n in (1, 2):
+        for seq in itertools.product(FAIL_KINDS + ["eof"], repeat=n):
+            if not any(k in FAIL_KINDS for k in seq):
+                continue
+            for final in ("server-close", "own-close"):
+                for disp in (None, "rel"):
+                    fi += 1
+                    if quick and n == 2 and fi % 4:
+                        continue
+                    jobs.append(("seq", seq, final, 1, disp))
+    # the connection is lost while a keepalive ping is still being written (slow path): the lost connection's ping thread is gone
+    # before the next connection exists
+    for delay in (0.5, 0.8, 1.4):
+        for interval in (0.1, 0.5):
+            for how in ("eof", "reset"):
+                jobs.append(("inflight-ping", delay, interval, how))
     # a long outage: hundreds of failed attempts in one run, then service comes back
     for disp in (None, "rel"):
         jobs.append(("outage", 450 if quick else 1500, disp))
@@ -131,6 +175,8 @@ def run(res, tier, seed, shard, nshards):
             seq_case(res, W, rng, *job[1:], ji=ji)
         elif job[0] == "outage":
             outage_case(res, W, job[1], job[2])
+        elif job[0] == "inflight-ping":
+            inflight_ping_case(res, W, *job[1:])
         else:
             close_in_sleep_case(res, W, rng, *job[1:])
 
@@ -190,7 +236,7 @@ def seq_case(res, W, rng, seq, final, interval, disp, ji=0):
         run_kwargs.update(ping_interval=2, ping_timeout=1)
     elif ji % 3 == 0:
         run_kwargs.update(ping_interval=2, ping_timeout=1)  # healthy keepalive during reconnections
-    url = "wss://app.test/" if any(k in TLS_LOSSES for k in seq) else "ws://app.test/"
+    url = "wss://app.test/" if any(k in TLS_LOSSES or k in TLS_FAILS for k in seq) else "ws://app.test/"
     run, out, failure, S = execute(plan, run_kwargs, hooks, disp, enabled, url=url)
     case = {"sequence": seq, "final": final, "interval": interval, "dispatcher": disp or "builtin", "on_reconnect": with_reconnect_cb,
             "ping": "ping_interval" in run_kwargs}
@@ -234,7 +280,7 @@ def seq_case(res, W, rng, seq, final, interval, disp, ji=0):
     for k in range(1, len(attempts)):
         prev = seq[k - 1]
         t_attempt = attempts[k][0]
-        if prev in ("refused", "reject"):
+        if prev in ("refused", "reject") or prev in FAIL_KINDS:
             loss = attempts[k - 1][0]
         elif prev in ("eof", "reset") or prev in CUT_LOSSES or prev in TLS_LOSSES:
             loss = servers[k - 1].lost_at
@@ -270,7 +316,7 @@ def seq_case(res, W, rng, seq, final, interval, disp, ji=0):
         if exp_args and tuple(closes[0][2]) != exp_args:
             bad("on_close-args", f"on_close{tuple(closes[0][2])!r}, expected {exp_args!r}")
     # open/reconnect callbacks: one per established connection, first for it
-    established = [i for i, p in enumerate(plan) if p["outcome"] == "ok"]
+    established = [i for i, p in enumerate(plan) if p["outcome"] == "ok" and p.get("tls_error") is None and p.get("response") is None]
     opens = [(t, n, ci) for (t, n, a, ci) in names if n in ("on_open", "on_reconnect")]
     exp_opens = []
     for idx, i in enumerate(established):
@@ -341,6 +387,46 @@ def close_in_sleep_case(res, W, rng, first, interval, disp, frac):
         bad("message-after-own-close", "a message of a connection made after close() was delivered")
     if run.open_transports():
         bad("transport-left-open", f"{len(run.open_transports())} transports open at the end")
+
+
+def inflight_ping_case(res, W, delay, interval, how):
+    # pings every 0.3 s (the first after 0.6 s); each write takes `delay`; the connection ends at t=0.7 with a ping in flight
+    plan = [dict(outcome="ok", script=[(0.2, "frames", text("before")), (0.7, how)], pong=0.05, send_delay=delay),
+            dict(outcome="ok", script=[(0.2, "frames", text("back")), (3.2, "close", b"\x03\xe8done")], pong=0.05)]
+    enabled = ["on_open", "on_message", "on_error", "on_close", "on_reconnect"]
+    run, out, failure, S = execute(plan, dict(reconnect=interval, ping_interval=0.3), {}, None, enabled)
+    res.case(("inflight-ping", delay, interval, how), nontrivial=True)
+    res.count("inflight_ping_runs")
+    res.count("runs_with_reconnect")
+    case = {"scenario": "loss-with-ping-in-flight", "write_takes": delay, "interval": interval, "loss": how}
+
+    def bad(kind, detail, **kw):
+        res.violation(kind, f"loss ({how}) with a keepalive ping in flight (each write takes {delay}s, reconnect={interval}): {detail}", case, dispatcher="builtin",
+                      final="server-close", **kw)
+    if run is None or failure is not None:
+        if isinstance(failure, sched.WatchdogExpired) or run is None:
+            res.inconc(f"inflight-ping case: {failure}")
+        else:
+            bad("no-return", f"{type(failure).__name__}: {str(failure)[:160]}", how=type(failure).__name__)
+        return
+    if len(run.attempts) != 2:
+        bad("reconnect-missing" if len(run.attempts) < 2 else "attempt-after-final-ending", f"{len(run.attempts)} attempts, expected 2: {[(a[0], a[1]) for a in run.attempts]}",
+            after=how, extra=len(run.attempts) - 2)
+        return
+    if run.attempts[1][3]:
+        bad("ping-thread-overlap", f"attempt 1 at t={run.attempts[1][0]}: live ping thread(s) {run.attempts[1][3]} at connect time", after=how)
+        return
+    # one ping thread with ping_interval=0.3 sends at most one ping per 0.3 s on the new connection
+    srv = [s_ for s_ in run.servers if s_.index == 1]
+    if srv:
+        life = (srv[0].close_frame_at or out["end"]) - srv[0].opened_at
+        npings = len(srv[0].pings)
+        res.count("pings_on_reconnected_connection", npings)
+        if npings > life / 0.3 + 1:
+            bad("ping-thread-overlap", f"{npings} pings in {life:.2f}s on the re-established connection (one thread sends at most {int(life / 0.3) + 1})", after=how)
+            return
+    if getattr(run, "live_at_return", None):
+        bad("ping-thread-overlap", f"ping thread(s) {run.live_at_return} alive after the run", after="end")
 
 
 def outage_case(res, W, n_failures, disp):
